@@ -283,7 +283,7 @@ def restart_target(uid, d2='X', *, dk=0, kind='ok'):
 
 
 def pool_target2(x):
-    """C09 pool target: x = [run id, index, flag]; flag True = poison, 'stuck' = never returns."""
+    """C09 pool target: x = [run id, index, flag]; flag True = poison, 'stuck' = never returns, 'linger' = poison that leaves a non-daemon thread in the child."""
     if x[2] == 'stuck':
         while True:
             try:
@@ -291,6 +291,13 @@ def pool_target2(x):
                     time.sleep(0.005)
             except Exception:
                 pass
+    if x[2] == 'linger':
+        # dies of the input, but leaves a non-daemon thread behind: the child process outlives its worker function
+        import multiprocessing
+        import threading
+        if multiprocessing.current_process().name != 'MainProcess':
+            threading.Thread(target=time.sleep, args=(60,)).start()
+        raise PoolDeath(x)
     if x[2]:
         raise PoolDeath(x)
     time.sleep(0.002)
